@@ -248,6 +248,23 @@ fn run(e: &Engine) {
         },
         check,
     );
+    // the Rust identifiers of the variants (V0, V1, ...) are not mnemonics: as data they select nothing
+    // unless the enum's own table says so
+    e.enumerate::<Case, _, _>(
+        "variant-identifiers-as-data",
+        n_enums as u64,
+        |part, f| {
+            let info = &CORPUS[part as usize];
+            for v in 0..info.mnemonics.len().max(3) + 2 {
+                for cand in [format!("V{v}"), format!("v{v}"), format!("V{v}1"), "V".to_string(), "v".to_string()] {
+                    if !f(Case::Candidate { e: part as usize, cand }) {
+                        return;
+                    }
+                }
+            }
+        },
+        check,
+    );
     // every variant's own forms select that variant (exhaustive over the table)
     e.enumerate::<Case, _, _>(
         "own-forms-select-own-variant",
